@@ -232,13 +232,19 @@ example : Tw.Packet7.chunkHeaderVitalPack { h := { flags := 1, size := 48 }, seq
 
 end V7
 
-/-- Tie: the literals and constants the writer models depend on (the two 2048-byte `ArrayVec`s of the 0.6
-`write_impl`, the one of 0.7, the `0xff` connless padding, flag/control/token constants). -/
+/-- Tie: the numbers and constants the writer models depend on: the capacities of the stack buffers of
+`write_impl` (by variable name), the connless padding byte, and — as *sets* of the distinct numbers > 1
+each writer function mentions (literals, constants resolved to values, `.len()` of byte-string constants,
+private helpers followed) — everything else, so that a restructuring which keeps the numbers leaves the tie
+intact while a new or changed number breaks it. -/
 theorem tie_writer_literals :
-    Tw.Gen.Packet6.lits_write_impl = [2048, 2048, 0, 0, 0] ∧ Tw.Gen.Packet7.lits_write_impl = [2048, 0, 0, 0] ∧
-    Tw.Gen.Packet6.bytelits_write_connless_packet = [255] ∧
-    Tw.Gen.Packet6.lits_control_write = [0, 0, 0] ∧ Tw.Gen.Packet7.lits_control_write = [0, 0, 0, 1, 0] ∧
-    Tw.Gen.Packet6.lits_write_chunk_impl = [0, 0, 0, 0] ∧ Tw.Gen.Packet7.lits_write_chunk_impl = [0, 0, 0, 0] ∧
+    Tw.Gen.Packet6.WRITE_TOKEN_BUFFER_SIZE = 2048 ∧ Tw.Gen.Packet6.WRITE_COMPRESSION_BUFFER_SIZE = 2048 ∧
+    Tw.Gen.Packet7.WRITE_COMPRESSION_BUFFER_SIZE = 2048 ∧ Tw.Gen.Packet6.CONNLESS_PADDING_BYTE = 255 ∧
+    Tw.Gen.Packet6.nums_write_impl = [4, 8, 2048] ∧ Tw.Gen.Packet7.nums_write_impl = [2, 4, 2048] ∧
+    Tw.Gen.Packet6.nums_write_connless_packet = [3, 255, 1400] ∧
+    Tw.Gen.Packet7.nums_write_connless_packet = [8, 9, 1400] ∧
+    Tw.Gen.Packet6.nums_control_write = [2, 3, 4, 1400] ∧ Tw.Gen.Packet7.nums_control_write = [2, 4, 5, 519, 1400] ∧
+    Tw.Gen.Packet6.nums_write_chunk_impl = [2, 10] ∧ Tw.Gen.Packet7.nums_write_chunk_impl = [2, 12] ∧
     Tw.Gen.Packet6.CTRLMSG_TOKEN_MAGIC = [84, 75, 69, 78] ∧ Tw.Gen.Packet7.TOKEN_NONE = [255, 255, 255, 255] ∧
     (Tw.Gen.Packet6.PACKETFLAG_CONTROL, Tw.Gen.Packet6.PACKETFLAG_CONNLESS, Tw.Gen.Packet6.PACKETFLAG_REQUEST_RESEND,
       Tw.Gen.Packet6.PACKETFLAG_COMPRESSION) = (1, 2, 4, 8) ∧
